@@ -75,7 +75,13 @@ class Feed:
         self.probes[k] = self.probes.get(k, 0) + n
 
     def touch(self, name, i):
-        self.last_struct_mut[id(self.M.roots[name])] = i
+        # ... a live-nested circuit is part of the circuits it sits in
+        for node in self.M.chain_of(self.M.roots[name]):
+            self.last_struct_mut[id(node)] = i
+
+    def mark(self, group, name):
+        for node in self.M.chain_of(self.M.roots[name]):
+            group.add(id(node))
 
     def __call__(self, ex, i, st, exc):
         M = self.M
@@ -117,10 +123,10 @@ class Feed:
             self.leaf_entries.setdefault(st["c"], [])
             owner = ex.handles[name].origin or name
             self.leaf_entries.setdefault(owner, []).append(len(M.entries[name]) - 1)
-            self.user_ops.add(id(M.roots[name]))
+            self.mark(self.user_ops, name)
             self.touch(name, i)
             if st.get("rel"):
-                self.explicit_roots.add(id(M.roots[name]))
+                self.mark(self.explicit_roots, name)
             if st.get("rel") and st["rel"][0] == "JOINED_END":
                 self.probe("joined-end")
         elif op == "ADD_OP_IN":
@@ -143,7 +149,7 @@ class Feed:
             for k in ("tie", "all_specific", "ambiguous"):
                 if v.get(k):
                     self.probe("placement-" + k)
-            self.user_ops.add(id(M.roots[name]))
+            self.mark(self.user_ops, name)
             self.touch(name, i)
             self.probe("add-into-nested-entry")
         elif op == "ADD_SUB":
@@ -170,7 +176,7 @@ class Feed:
                 self.explicit_roots.add(id(M.roots[name]))
             if child in M.ambiguous:
                 M.ambiguous.add(name)
-            self.user_ops.add(id(M.roots[name]))
+            self.mark(self.user_ops, name)
             self.touch(name, i)
             self.probe("add-sub")
             if M.roots[child].members and any(m.is_comp for m in M.roots[child].members):
@@ -196,12 +202,9 @@ class Feed:
                 self.explicit_roots.add(id(M.roots[name]))
             if child in M.ambiguous:
                 M.ambiguous.add(name)
-            self.user_ops.add(id(M.roots[name]))
+            self.mark(self.user_ops, name)
             self.touch(name, i)
             self.touch(child, i)
-            # the nested circuit's own handles are not looked at any more (its times are those inside the parent)
-            for hname in [h for h, r in M.roots.items() if r is c]:
-                del M.roots[hname]
             self.probe("add-live")
         elif op == "NEW_LIB":
             a = ex.adopted[st["c"]]
@@ -412,7 +415,7 @@ def evaluate_point(desc, i, ansP, stats):
     if name not in M.ambiguous:
         try:
             view = M.view(name)
-            view["rel_known"] = tree_rel_known(root)
+            view["rel_known"] = tree_rel_known(M.top_of(root))
             findings.extend(oracles.conformance(full, view, flags))
             if view.get("t") is not None:
                 stats["timed_points"] = stats.get("timed_points", 0) + 1
@@ -688,7 +691,7 @@ def plot_oracle(desc, i, st, plot, stats):
     if name in M.roots and name not in M.ambiguous:
         try:
             view = M.view(name)
-            view["rel_known"] = tree_rel_known(M.roots[name])
+            view["rel_known"] = tree_rel_known(M.top_of(M.roots[name]))
             for f in oracles.conformance(full, view, feed.flags.get(name, set())):
                 f["props"] = sorted(set(f["props"]) | {"C18"})
                 f["oracle"] = "drawing-reference:" + f["oracle"]
